@@ -88,14 +88,16 @@ def build_model(ck: Checker) -> TransferModel:
     if dir_obj is None:
         raise AnalysisError("hashfile.transfer: directory object of the iteration not found")
     entry_ids = None
-    for x in body:
-        a = x.ast
-        if x.kind == "stmt" and isinstance(a, ast.Assign) and isinstance(a.targets[0], ast.Name) and isinstance(a.value, (ast.SetComp, ast.Call)):
-            v = a.value
-            if isinstance(v, ast.Call) and call_name(v) in ("set", "frozenset") and v.args:
-                v = v.args[0]
-            if isinstance(v, (ast.SetComp, ast.GeneratorExp, ast.ListComp)) and isinstance(v.generators[0].iter, ast.Name) and v.generators[0].iter.id == dir_obj:
-                entry_ids = a.targets[0].id
+    from ..an import collection_builds
+
+    cand = {x.ast.targets[0].id for x in body if x.kind == "stmt" and isinstance(x.ast, ast.Assign) and isinstance(x.ast.targets[0], ast.Name)}
+    cand |= {x.ast.target.id for x in body if x.kind == "stmt" and isinstance(x.ast, ast.AnnAssign) and isinstance(x.ast.target, ast.Name)}
+    for nm in sorted(cand):
+        for b in collection_builds(g, move.node, nm):
+            if isinstance(b.src, ast.Name) and b.src.id == dir_obj and b.unconditional and head.id in b.node.loops:
+                tn = b.target_names()
+                if tn and norm(b.elt) == tn[-1]:
+                    entry_ids = nm
     rets = [r for r in walk_own(move.node) if isinstance(r, ast.Return) and isinstance(r.value, ast.Name)]
     failed = None
     for r in rets:
@@ -125,6 +127,23 @@ def build_model(ck: Checker) -> TransferModel:
             if is_method_call(c, "append") and c.args and norm(c.args[0]) == dir_obj and isinstance(c.func.value, ast.Name):
                 m.success_list = c.func.value.id
     return m
+
+
+def is_dir_ident(ck: Checker, m: TransferModel, e: ast.expr) -> bool:
+    """Does e denote this iteration's directory object id (dir_obj.hash_info / the loop variable),
+    possibly through local aliases or wrapped in a one-element list/set?"""
+    loopvar = m.head.ast.target.id if isinstance(m.head.ast.target, ast.Name) else None
+    from ..prov import expand1
+
+    for alt in expand1(ck.prog, m.move, e, levels=2):
+        x = alt
+        if isinstance(x, (ast.List, ast.Tuple, ast.Set)) and len(x.elts) == 1:
+            x = x.elts[0]
+        for a2 in expand1(ck.prog, m.move, x, levels=2):
+            t = norm(a2)
+            if t in (f"{m.dir_obj}.hash_info", loopvar):
+                return True
+    return False
 
 
 def iteration_starts(m: TransferModel) -> List[int]:
